@@ -1,4 +1,5 @@
 import Py4hwV.Proofs.C01FlatStore
+import Py4hwV.Proofs.C01FlatSeq
 /-
   C01 design level: the SHIPPED `V.Sim.cycle` (falling half, rising half, HashMap store) refines `cycleA` on designs whose
   `always` blocks are `@(posedge c)` with `c` following the base clock, contain no blocking assignments and assign whole
@@ -204,6 +205,11 @@ theorem zip_map_fst {α β : Type} (l : List α) (g : α → β) : (l.zip (l.map
   | nil => rfl
   | cons a l ih => simp [ih]
 
+theorem map_zip_snd' {α β γ : Type} (l : List (α × β)) (g : α × β → γ) (h : (α × β) × γ → β) (hh : ∀ x, h x = x.1.2) :
+    (l.zip (l.map g)).map h = l.map Prod.snd := by
+  have : h = Prod.snd ∘ Prod.fst := by funext x; exact hh x
+  rw [this, ← List.map_map, zip_map_fst]
+
 /-- no `posedge c` block fires when every such `c` was not 0 before -/
 theorem fired_none (f : V.Flat) (st0 st : Store)
     (hpos : ∀ ep, ep ∈ f.procs → ∃ c, ep.1 = .pos c ∧ bitOf st0 c ≠ some 0) :
@@ -227,14 +233,9 @@ theorem fired_all (f : V.Flat) (st0 st : Store)
     (hpos : ∀ ep, ep ∈ f.procs → ∃ c, ep.1 = .pos c ∧ bitOf st0 c = some 0 ∧ bitOf st c = some 1) :
     firedProcs f (snapshotEv f st0) st = f.procs.map Prod.snd := by
   unfold firedProcs snapshotEv
-  have hall : (f.procs.zip (f.procs.map fun x => match x with | (ev, _) => (evSig ev).bind (bitOf st0))).filter
-      (fun x => match x with
-        | ((ev, _), b) => match ev with
-          | .pos c => b == some 0 && bitOf st c == some 1
-          | .neg c => b == some 1 && bitOf st c == some 0
-          | .star => false) = f.procs.zip (f.procs.map fun x => match x with | (ev, _) => (evSig ev).bind (bitOf st0)) := by
-    rw [List.filter_eq_self]
-    intro x hx
+  rw [List.filter_eq_self.mpr]
+  · exact map_zip_snd' f.procs _ _ (fun x => rfl)
+  · intro x hx
     have hm := mem_zip_map f.procs _ x hx
     obtain ⟨⟨ev, p⟩, b⟩ := x
     obtain ⟨c, hc, hb0, hb1⟩ := hpos (ev, p) hm.1
@@ -243,10 +244,6 @@ theorem fired_all (f : V.Flat) (st0 st : Store)
     have hb' : b = bitOf st0 c := by rw [hm.2]; rfl
     subst hb'
     simp [hb0, hb1]
-  rw [hall]
-  have : (fun (x : (Event × Stmt) × Option Nat) => match x with | ((_, p), _) => p) = Prod.snd ∘ Prod.fst := by
-    funext x; rfl
-  rw [this, ← List.map_map, zip_map_fst]
 
 /-! ### running the fired blocks -/
 
@@ -291,4 +288,151 @@ theorem fireAll_queue (procs : List (Event × Stmt)) (hp : ∀ ep, ep ∈ procs 
         · exact Or.inr ⟨(.pos c, p), n, by simp, hn', e⟩
     · exact Or.inr ⟨ep, n, by simp [hep], hn', e⟩
 
+/-! ### one half period, one cycle -/
+
+/-- hypotheses on a flattened design under which the shipped cycle is `cycleA`: only `always @(posedge c)` blocks with
+    non-blocking whole-variable assignments that leave the base clock alone; in every settled store each block clock `c`
+    equals the base clock `cname` (for a flat design: `assign i.clk = clk`, both one bit wide) -/
+structure CycOK (f : V.Flat) (cname : String) (topo : List (LHS × Expr)) (info0 : String → Option SigInfo) : Prop where
+  perm : f.assigns.Perm topo
+  acyc : Acyc topo
+  clk_undriven : ∀ a, a ∈ f.assigns → tgt a ≠ cname
+  procs : ∀ ep, ep ∈ f.procs → (∃ c, ep.1 = .pos c) ∧ NbaLid ep.2 ∧ cname ∉ nbaTgts ep.2
+  follows : ∀ ep c, ep ∈ f.procs → ep.1 = .pos c → ∀ r : Rd, r.info = info0 → Settled f.assigns r →
+    ∀ b, r.val cname = ⟨1, b, true⟩ → r.val c = ⟨1, b, true⟩
+
+theorem CycOK.nostar {f : V.Flat} {cname : String} {topo : List (LHS × Expr)} {info0 : String → Option SigInfo}
+    (h : CycOK f cname topo info0) : NoStar f := by
+  intro ep hep e
+  obtain ⟨⟨c, hc⟩, _⟩ := h.procs ep hep
+  rw [hc] at e; cases e
+
+theorem bitOf_known (s : Store) (n : String) (b : Nat) (hb : b < 2) (h : s.rd.val n = ⟨1, b, true⟩) : bitOf s n = some b := by
+  unfold bitOf
+  simp only [h, if_true]
+  congr 1
+  omega
+
+theorem iter_succ2 {α : Type} (g : α → α) (k : Nat) (a : α) : Net.iter g (k + 1) a = g (Net.iter g k a) := by
+  induction k generalizing a with
+  | zero => rfl
+  | succ k ih => simp only [Net.iter] at *; exact ih _
+
+theorem settleA_settled {as topo : List (LHS × Expr)} (hp : as.Perm topo) (hA : Acyc topo) (r : Rd)
+    (hok : ∀ a, a ∈ as → LhsOk r a.1) :
+    Settled as (settleA as r) ∧ (settleA as r).info = r.info ∧ (settleA as r).mem = r.mem ∧
+    (∀ n, (∀ a, a ∈ as → tgt a ≠ n) → (settleA as r).val n = r.val n) ∧ settleA as (settleA as r) = settleA as r := by
+  have h1 := iter_eq_topo hp hA r hok as.length (Nat.le_refl _)
+  have hokt : ∀ a, a ∈ topo → LhsOk r a.1 := fun a ha => hok a (hp.mem_iff.mpr ha)
+  have hS := pass_topo_settled topo hA r hokt
+  have hi : (settleA as r).info = r.info := iter_passA_info _ _ _
+  refine ⟨?_, hi, iter_passA_mem _ _ _, ?_, ?_⟩
+  · show Settled as (Net.iter (passA as) as.length r)
+    rw [h1]; exact (settled_perm hp _).mpr hS
+  · intro n hn
+    show (Net.iter (passA as) as.length r).val n = _
+    rw [h1]
+    exact passA_val_other topo r hokt n (fun b hb e => hn b (hp.mem_iff.mpr hb) e.symm)
+  · -- a settled store is a fixpoint of every further pass
+    have hfix : passA as (settleA as r) = settleA as r := by
+      have h3 : Net.iter (passA as) (as.length + 1) r = passA as (Net.iter (passA as) as.length r) :=
+        iter_succ2 _ _ _
+      have h4 : Net.iter (passA as) (as.length + 1) r = passA topo r := iter_eq_topo hp hA r hok (as.length + 1) (by omega)
+      show passA as (Net.iter (passA as) as.length r) = Net.iter (passA as) as.length r
+      rw [← h3, h4, h1]
+    exact iter_fix _ _ hfix _
+
+/-- the reader after the test bench / `Sim.half` drives the base clock -/
+def withClk (r : Rd) (cname : String) (lvl : Nat) : Rd :=
+  { r with val := fun n => if n = cname then ⟨1, lvl, true⟩ else r.val n }
+
+theorem deltaLoop_nil (m : Sim) (n : Nat) : deltaLoop m (n + 1) [] = m := by
+  simp [deltaLoop]
+
+section Cycle
+variable {topo : List (LHS × Expr)}
+
+theorem clkSet_settle (m : Sim) (lvl : Nat) (h : CycOK m.flat m.clk topo m.st.rd.info)
+    (hl : ∀ a, a ∈ m.flat.assigns → LhsOk m.st.rd a.1) :
+    (({ m with st := m.st.setVal m.clk ⟨1, lvl, true⟩ } : Sim).settle).st.rd = settleA m.flat.assigns (withClk m.st.rd m.clk lvl) ∧
+    (({ m with st := m.st.setVal m.clk ⟨1, lvl, true⟩ } : Sim).settle).errors = m.errors ∧
+    (({ m with st := m.st.setVal m.clk ⟨1, lvl, true⟩ } : Sim).settle).flat = m.flat ∧
+    (({ m with st := m.st.setVal m.clk ⟨1, lvl, true⟩ } : Sim).settle).clk = m.clk := by
+  have hrd : (m.st.setVal m.clk ⟨1, lvl, true⟩).rd = withClk m.st.rd m.clk lvl := setVal_rd _ _ _
+  have := sim_settle_rd ({ m with st := m.st.setVal m.clk ⟨1, lvl, true⟩ } : Sim) h.nostar h.perm h.acyc
+    (fun a ha => by
+      show LhsOk (m.st.setVal m.clk ⟨1, lvl, true⟩).rd a.1
+      rw [hrd]; exact LhsOk_congr (r := m.st.rd) (r' := withClk m.st.rd m.clk lvl) rfl (hl a ha))
+  refine ⟨?_, this.2.1, this.2.2.1, this.2.2.2⟩
+  rw [this.1]
+  show settleA m.flat.assigns (m.st.setVal m.clk ⟨1, lvl, true⟩).rd = _
+  rw [hrd]
+
+/-- **falling half**: nothing fires; the store is re-settled with the clock low -/
+theorem half_low (m : Sim) (h : CycOK m.flat m.clk topo m.st.rd.info) (hl : ∀ a, a ∈ m.flat.assigns → LhsOk m.st.rd a.1)
+    (hcs : ∀ ep c, ep ∈ m.flat.procs → ep.1 = .pos c → m.st.rd.val c = ⟨1, 1, true⟩) :
+    (m.half 0).st.rd = settleA m.flat.assigns (withClk m.st.rd m.clk 0) ∧ (m.half 0).errors = m.errors ∧
+    (m.half 0).flat = m.flat ∧ (m.half 0).clk = m.clk := by
+  have hnone : ∀ st, firedProcs m.flat (snapshotEv m.flat m.st) st = [] := by
+    intro st
+    apply fired_none
+    intro ep hep
+    obtain ⟨⟨c, hc⟩, _⟩ := h.procs ep hep
+    refine ⟨c, hc, ?_⟩
+    rw [bitOf_known m.st c 1 (by omega) (hcs ep c hep hc)]
+    simp
+  unfold Sim.half
+  simp only [hnone, deltaLoop_nil]
+  exact clkSet_settle m 0 h hl
+
+/-- **rising half** from a settled store with the clock low: every block fires on the settled pre-edge store, the
+    non-blocking updates are applied together, the store is settled again (and the delta loop stops: no derived clock) -/
+theorem half_high (m : Sim) (h : CycOK m.flat m.clk topo m.st.rd.info) (hl : ∀ a, a ∈ m.flat.assigns → LhsOk m.st.rd a.1)
+    (hS : Settled m.flat.assigns m.st.rd) (hlow : m.st.rd.val m.clk = ⟨1, 0, true⟩) :
+    (m.half 1).st.rd =
+      settleA m.flat.assigns (applyNbaA (settleA m.flat.assigns (withClk m.st.rd m.clk 1))
+        (fireAll m.flat.procs (settleA m.flat.assigns (withClk m.st.rd m.clk 1))).2) ∧
+    (fireAll m.flat.procs (settleA m.flat.assigns (withClk m.st.rd m.clk 1))).1 = settleA m.flat.assigns (withClk m.st.rd m.clk 1) ∧
+    (m.half 1).errors = m.errors ∧ (m.half 1).flat = m.flat ∧ (m.half 1).clk = m.clk := by
+  -- the settled store with the clock high
+  have hc := clkSet_settle m 1 h hl
+  generalize hm1 : ({ m with st := m.st.setVal m.clk ⟨1, 1, true⟩ } : Sim).settle = m1 at hc
+  obtain ⟨hrd1, herr1, hflat1, hclk1⟩ := hc
+  have hlw : ∀ a, a ∈ m.flat.assigns → LhsOk (withClk m.st.rd m.clk 1) a.1 :=
+    fun a ha => LhsOk_congr (r := m.st.rd) (r' := withClk m.st.rd m.clk 1) rfl (hl a ha)
+  have hset := settleA_settled h.perm h.acyc (withClk m.st.rd m.clk 1) hlw
+  generalize hre : settleA m.flat.assigns (withClk m.st.rd m.clk 1) = re at hrd1 hset ⊢
+  obtain ⟨hSe, hie, hme, hue, hidem⟩ := hset
+  have hie' : re.info = m.st.rd.info := hie
+  have hclke : re.val m.clk = ⟨1, 1, true⟩ := by
+    rw [hue m.clk (fun a ha => h.clk_undriven a ha)]; simp [withClk]
+  have hpos : ∀ ep, ep ∈ m.flat.procs → (∃ c, ep.1 = .pos c) ∧ NbaLid ep.2 := fun ep hep => ⟨(h.procs ep hep).1, (h.procs ep hep).2.1⟩
+  -- everything fires
+  have hfired : firedProcs m.flat (snapshotEv m.flat m.st) m1.st = m.flat.procs.map Prod.snd := by
+    apply fired_all
+    intro ep hep
+    obtain ⟨⟨c, hc⟩, _⟩ := h.procs ep hep
+    refine ⟨c, hc, ?_, ?_⟩
+    · exact bitOf_known m.st c 0 (by omega) (h.follows ep c hep hc m.st.rd rfl hS 0 hlow)
+    · apply bitOf_known m1.st c 1 (by omega)
+      rw [hrd1]
+      exact h.follows ep c hep hc re hie' hSe 1 hclke
+  have hfold := fold_fired
+  unfold Sim.half
+  simp only [hm1, hfired]
+  have hfa := (fold_fired (fun acc p => ((runProc acc.1 p).1, acc.2 ++ (runProc acc.1 p).2)) (fun _ _ => rfl)
+    m.flat.procs hpos m1.st [])
+  rw [hrd1] at hfa
+  have hfire1 : (fireAll m.flat.procs re).1 = re := hfa.2
+  refine ⟨?_, hfire1, ?_⟩
+  · cases hprocs : m.flat.procs with
+    | nil =>
+      simp only [List.map_nil, deltaLoop_nil, hrd1, fireAll, List.foldl, applyNbaA]
+      exact hidem.symm
+    | cons ep0 rest =>
+      rw [← hprocs]
+      sorry
+  · sorry
+
+end Cycle
 end FlatM
